@@ -72,10 +72,53 @@ def static_obligations(tier):
     return recs
 
 
+# hand-written trees: (files, config, arguments relative to the root, expected relative results or None = reference walk of '.')
+SCENARIOS = [
+    # a multi-segment exclusion prunes exactly that directory, not other directories with the same last name
+    (["docs/drafts/x.md", "src/drafts/y.md", "archive/drafts/z.md", "docs/k.md", "drafts/top.md"], {"extend_exclude": ["docs/drafts/"]}, ["."], None),
+    (["a/drafts/x.md", "b/drafts/y.md", "a/b/drafts/z.md"], {"extend_exclude": ["b/drafts/"]}, ["."], None),
+    # a directory that holds only sub-directories still prunes its excluded children
+    (["packages/node_modules/m/r.md", "packages/app/a.md", "packages/out/o.md", "w.md"], {"extend_exclude": ["out/"]}, ["."], None),
+    (["only/dirs/here/build/b.md", "only/dirs/here/ok/c.md"], {}, ["."], None),
+    # an explicit file that force_exclude filters out does not hide the same file from a directory argument naming its
+    # directory (a walk root is not subject to the exclusions), in either order
+    (["vendor/lib.md", "a.md"], {"force_exclude": True}, ["vendor/lib.md", "vendor"], ["vendor/lib.md"]),
+    (["vendor/lib.md", "a.md"], {"force_exclude": True}, ["vendor", "vendor/lib.md"], ["vendor/lib.md"]),
+    (["build/x.md", "a.md"], {"force_exclude": True}, ["build/x.md", "a.md", "build"], ["a.md", "build/x.md"]),
+    # dot-files and dot-directories are ordinary names for globs
+    (["docs/.draft.md", "docs/.internal/i.md", "docs/v.md"], {}, ["docs/*.md"], ["docs/.draft.md", "docs/v.md"]),
+    (["docs/.draft.md", "docs/.internal/i.md", "docs/v.md"], {}, ["docs/**/*.md"], ["docs/.draft.md", "docs/.internal/i.md", "docs/v.md"]),
+]
+
+
+def scenarios(viol):
+    from flowmark.file_resolver import FileResolver, FileResolverConfig
+    n = 0
+    for files, cfg, args, expect in SCENARIOS:
+        base = scratch_dir("vf-c17s-")
+        root = os.path.join(base, "t")
+        try:
+            for f in files:
+                os.makedirs(os.path.dirname(os.path.join(root, f)), exist_ok=True)
+                with open(os.path.join(root, f), "w") as fh:
+                    fh.write("x")
+            want = expect if expect is not None else [os.path.relpath(p, os.path.realpath(root)) for p in reference(root, cfg, None)]
+            with in_dir(root):
+                for order in (list(args), list(reversed(args))):
+                    got = [os.path.relpath(str(p), os.path.realpath(root)) for p in FileResolver(FileResolverConfig(respect_gitignore=False, **cfg)).resolve(order)]
+                    n += 1
+                    if got != sorted(want):
+                        viol.append({"clause": "scenario_exact", "input": {"files": files, "config": cfg, "args": order}, "got": got, "want": sorted(want)})
+        finally:
+            shutil.rmtree(base, ignore_errors=True)
+    return n
+
+
 def bounded(tier, seed):
     from flowmark.file_resolver import FileResolver, FileResolverConfig
     rnd = random.Random(seed)
     viol, evals, distinct, samples = [], 0, set(), []
+    evals += scenarios(viol)
     n = 40 if tier == "quick" else 400
     for i in range(n):
         base = scratch_dir("vf-c17-")
@@ -170,12 +213,18 @@ def bounded(tier, seed):
                      and os.path.realpath(os.path.join(root, p)) not in link_targets]   # (globs may name symlinks explicitly)
             if extra:
                 viol.append({"clause": "glob_filtered", "input": inp, "got": extra})
+            # ... and nothing that passes them is dropped: the recursive glob from the root finds every file the walk finds
+            # (dot-files and dot-directories included)
+            suffix = ".md" if "include" not in cfg else ".txt"
+            missing = [p for p in wantrel if p not in g and p.endswith(suffix)]
+            if missing:
+                viol.append({"clause": "glob_complete", "input": dict(inp, pattern="**/*.md" if "include" not in cfg else "**/*.txt"), "got": g, "want": wantrel})
             if len(samples) < 2:
                 samples.append(inp)
         finally:
             shutil.rmtree(base, ignore_errors=True)
     return {"evaluations": evals, "distinct_nontrivial": len(distinct), "violations": viol, "samples": samples,
-            "rule": "seeded trees (directories/files from fixed pools, nesting <= 3, symlinks to a file and a directory outside the tree and "
+            "rule": "(also: 9 hand-written scenarios -- same-named directories under a multi-segment exclusion, directories holding only sub-directories, force_exclude file + its directory in both orders, dot-names under globs; and glob completeness: **/*.md from the root finds every file of the reference walk) seeded trees (directories/files from fixed pools, nesting <= 3, symlinks to a file and a directory outside the tree and "
                     "to a file inside, file sizes around the limit, also behind a symbolic link, a .flowmarkignore at the root (sometimes rule-less) and / or above it) x 10 settings (incl. multi-segment user exclusions and an empty exclude list, which switches the default exclusions off): traversal result == reference "
                     "walk written from the property; sorted/distinct/absolute; same result for permuted and duplicated arguments (also two directory arguments, one nested in a directory the outer walk prunes, in both orders), also when files are named again through '..' / relative spellings (no file twice, canonical paths); "
                     "explicit files bypass exclusions but not the size limit; glob results pass the same filters; distinct = distinct "
